@@ -627,3 +627,155 @@ func VerifBuiltinStable(n int) {
 	verifapi.Classify("C12/builtin-method-table-altered/" + pp.name)
 	verifapi.Assert(base.VerifBuiltinUnchanged(snap), "C12-table")
 }
+
+// ---- hosts shared by C11 (interference) and C06 (layout) ----
+
+type verifHost struct {
+	name  string
+	lines []string
+	// inner: 1-based rows before which an independent statement may be inserted without
+	// becoming the last statement of its enclosing body
+	inner []int
+}
+
+var verifHosts = []verifHost{
+	{"if-else", []string{"x = Sym.u", "if x.nil?", "dbtp x", "else", "dbtp x", "end", "dbtp x"}, []int{1, 2, 3, 5, 7}},
+	{"builtin-calls", []string{"a = [Sym.a]", "b = a.first", "dbtp b", "c = 2 * 3", "dbtp c"}, []int{1, 2, 3, 4, 5}},
+	{"def-and-call", []string{"def f(v)", "w = v", "w", "end", "r = f(Sym.a)", "dbtp r"}, []int{1, 2, 3, 5, 6}},
+	{"class-method", []string{"class Foo", "def bar(v)", "v", "end", "end", "o = Foo.new", "r = o.bar(Sym.a)", "dbtp r"}, []int{1, 2, 3, 6, 7, 8}},
+	{"do-block", []string{"a = [Sym.a, 1]", "a.each do |e|", "dbtp e", "end", "dbtp a"}, []int{1, 2, 3, 5}},
+	{"case-in", []string{"x = Sym.a", "case x", "in Integer", "dbtp x", "in String", "dbtp x", "end", "dbtp x"}, []int{1, 2, 4, 6, 8}},
+	{"brace-block-elsif", []string{"y = Sym.a", "r = [1, 2].map { |e| e }", "if y.nil?", "dbtp y", "elsif y.is_a?(Integer)", "dbtp y", "else", "dbtp y", "end", "dbtp r"}, []int{1, 2, 3, 4, 6, 8, 10}},
+	{"case-in-binding", []string{"x = [Sym.a, 1]", "case x", "in [p, q]", "dbtp p", "dbtp q", "end", "dbtp x"}, []int{1, 2, 4, 5, 7}},
+	{"ends-with-end", []string{"def g(v)", "v", "end", "r = g(Sym.a)", "dbtp r", "if r.nil?", "dbtp r", "end"}, []int{1, 4, 5, 6}},
+	{"ends-with-call", []string{"a = [Sym.a]", "dbtp a", "b = a.first", "dbtp b", "a.push(1)"}, []int{1, 2, 3, 4}},
+}
+
+var verifFragments = []struct{ name, text string }{
+	{"conditional", "qq = nil\nif qq.nil?\nqq\nend\n"},
+	{"array-literal", "pp = [1, \"s\"]\n"},
+	{"builtin-call-on-union", "uu = true ? 1 : \"s\"\nvv = uu * 2\n"},
+	{"block", "[1, 2].each do |ee|\nee\nend\n"},
+	{"string-call", "ss = \"a\".upcase\n"},
+}
+
+func verifJoinLines(lines []string) string {
+	s := ""
+	for _, l := range lines {
+		s += l + "\n"
+	}
+	return s
+}
+
+// verifInsert returns the host with text inserted before 1-based row at.
+func verifInsert(h verifHost, at int, text string) string {
+	s := ""
+	for i, l := range h.lines {
+		if i+1 == at {
+			s += text
+		}
+		s += l + "\n"
+	}
+	return s
+}
+
+func verifHostSyms(h verifHost) *verifSym {
+	src := verifJoinLines(h.lines)
+	var need []string
+	for _, nm := range []string{"a", "b", "u"} {
+		if strings.Contains(src, "Sym."+nm) {
+			need = append(need, nm)
+		}
+	}
+	s := verifInstallSym(need...)
+	verifapi.WitnessList("Sym.a", verifKN(s.ka))
+	verifapi.WitnessList("Sym.b", verifKN(s.kb))
+	verifapi.WitnessList("Sym.u", verifKN(s.u1), verifKN(s.u2))
+	return s
+}
+
+// VerifInterfere: C11. Host alone vs. host with an independent fragment inserted at a
+// statement boundary; every output line from outside the fragment must be unchanged apart
+// from the row shift. n = 0: first 3 hosts x first 3 fragments; n = 1: all.
+func VerifInterfere(n int) {
+	nh, nf := 3, 3
+	if n >= 1 {
+		nh, nf = len(verifHosts), len(verifFragments)
+	}
+	h := verifHosts[verifapi.Concrete(verifapi.Int("host", 0, nh-1))]
+	f := verifFragments[verifapi.Concrete(verifapi.Int("fragment", 0, nf-1))]
+	at := h.inner[verifapi.Concrete(verifapi.Int("boundary", 0, len(h.inner)-1))]
+	verifHostSyms(h)
+	a := verifJoinLines(h.lines)
+	b := verifInsert(h, at, f.text)
+	outA, outB := verifRunTwo(a, b)
+	verifapi.Reach("ran")
+	verifapi.Witness("where", h.name+" row "+verifItoa(at))
+	verifExpectShift("C11-shift", "C11/host-output-changed-by-independent-fragment/"+f.name+"/into-"+h.name, a, b, outA, outB, at, verifCountLines(f.text))
+}
+
+// VerifLayout: C06. Layout edits that must only shift rows: a blank line or a comment-only
+// line inserted at any line boundary, a newline added inside a string literal, the trailing
+// newline removed.
+func VerifLayout(n int) {
+	nh := 4
+	if n >= 1 {
+		nh = len(verifHosts)
+	}
+	edit := verifapi.Concrete(verifapi.Int("edit", 0, 3))
+	switch edit {
+	case 0, 1:
+		h := verifHosts[verifapi.Concrete(verifapi.Int("host", 0, nh-1))]
+		at := verifapi.Concrete(verifapi.Int("row", 1, len(h.lines)))
+		verifHostSyms(h)
+		text := "\n"
+		kind := "blank-line"
+		if edit == 1 {
+			text = "# note\n"
+			kind = "comment-line"
+		}
+		a := verifJoinLines(h.lines)
+		b := verifInsert(h, at, text)
+		outA, outB := verifRunTwo(a, b)
+		verifapi.Reach("ran")
+		ctx := "top-level-or-body"
+		if at > 1 && strings.HasPrefix(h.lines[at-2], "in ") {
+			ctx = "right-after-in-pattern"
+		}
+		verifapi.Witness("where", h.name+" row "+verifItoa(at))
+		verifExpectShift("C06-shift", "C06/"+kind+"-changes-more-than-rows/"+ctx+"/"+h.name, a, b, outA, outB, at, 1)
+	case 2:
+		// trailing newline removed: same output expected
+		h := verifHosts[verifapi.Concrete(verifapi.Int("host", 0, nh-1))]
+		verifHostSyms(h)
+		a := verifJoinLines(h.lines)
+		b := strings.TrimSuffix(a, "\n")
+		outA, outB := verifRunTwo(a, b)
+		verifapi.Reach("ran")
+		verifExpectShift("C06-shift", "C06/trailing-newline-removal-changes-output/"+h.name, a, b, outA, outB, 1000, 0)
+	case 3:
+		// a newline added inside one (or both) of two string literals
+		s := verifInstallSym("a")
+		verifapi.WitnessList("Sym.a", verifKN(s.ka))
+		v := verifapi.Concrete(verifapi.Int("variant", 0, 3))
+		lit := []string{"\"ab\"", "\"a\nb\""}
+		pairA := [][2]int{{0, 0}, {0, 0}, {0, 0}, {0, 1}}[v]
+		pairB := [][2]int{{1, 0}, {0, 1}, {1, 1}, {1, 1}}[v]
+		mk := func(p [2]int) string {
+			return "s = " + lit[p[0]] + "\nt = " + lit[p[1]] + "\nx = Sym.a\ndbtp x\ndbtp s\n"
+		}
+		a, b := mk(pairA), mk(pairB)
+		outA, outB := verifRunTwo(a, b)
+		verifapi.Reach("ran")
+		// rows of B after the widened literal(s) are larger by the number of added newlines
+		added := (pairB[0] - pairA[0]) + (pairB[1] - pairA[1])
+		name := []string{"first-literal", "second-literal", "both-literals-identical-content", "first-literal-becomes-identical-to-second"}[v]
+		// the inserted physical lines are the continuation lines of the literals; nothing is
+		// reported on them, so "dropping" rows [at, at+delta) is harmless
+		at := 2
+		if v == 1 {
+			at = 3
+		}
+		verifExpectShift("C06-shift", "C06/newline-inside-string-literal-changes-more-than-rows/"+name, a, b, outA, outB, at, added)
+	}
+}
